@@ -219,11 +219,14 @@ Definition cmd_nick (e : env) (k : skey) (m : imsg) : M unit :=
           emit (rc_user k ++ common ++ rc_services sv) (usrmsg oldPrefix "NICK" [nick])
         else maybe_login e k m.
 
-(* cmd_user.go keeps at most maxUserLen bytes of the user name (fix for the over-long prefix, finding c15:nocommand) *)
+(* cmd_user.go keeps at most maxUserLen bytes of the user name (fix for the over-long prefix, finding c15:nocommand)
+   and drops a multi-byte character the cut went through (the snapshot cannot serialize ill-formed UTF-8) *)
 Definition max_user_len : nat := 32.
+Definition cap_user (u : string) : string :=
+  if Nat.ltb max_user_len (slen u) then to_valid_utf8 (stake max_user_len u) else u.
 Definition cmd_user (e : env) (k : skey) (m : imsg) : M unit :=
   DO u <- param m 0 IN
-  updSess k (fun s => update_prefix (ss_user_real (stake max_user_len u) (trailing m) s)) ;;;
+  updSess k (fun s => update_prefix (ss_user_real (cap_user u) (trailing m) s)) ;;;
   maybe_login e k m.
 
 Definition pass_prefixed (p : string) : bool :=
